@@ -289,6 +289,19 @@ func (c *Ctx) summary(p *prover, fn *ssa.Function) []resultSummary {
 			if all {
 				out = append(out, resultSummary{result: i, kind: "ge-const", k: 0})
 			}
+			for _, cand := range []int64{1, 255, 65535} {
+				all := true
+				for _, r := range rets {
+					if !p.LE(r.Results[i], false, 0, nil, false, cand, r) {
+						all = false
+						break
+					}
+				}
+				if all {
+					out = append(out, resultSummary{result: i, kind: "le-const", k: cand})
+					break
+				}
+			}
 			for k, par := range fn.Params {
 				if !isStringLike(par.Type()) {
 					continue
@@ -448,4 +461,52 @@ func (c *Ctx) implementations(m *types.Func) []*ssa.Function {
 	}
 	c.impls[m] = out
 	return out
+}
+
+// readBitsMasked: every return of (*lzhuf.bitReader).ReadBits64 is 0 or x & ((1 << bits) - 1),
+// and ReadBits returns exactly ReadBits64's result converted to int.
+func (c *Ctx) readBitsMasked() bool {
+	if c.bitsMasked != 0 {
+		return c.bitsMasked > 0
+	}
+	c.bitsMasked = -1
+	fn := c.Func("lzhuf", "(*bitReader).ReadBits64")
+	rb := c.Func("lzhuf", "(*bitReader).ReadBits")
+	if fn == nil || rb == nil || len(fn.Params) < 2 {
+		return false
+	}
+	for _, ret := range returnsOf(fn) {
+		v := origin(ret.Results[0])
+		if k, isC := constInt(v); isC && k == 0 {
+			continue
+		}
+		b, ok := v.(*ssa.BinOp)
+		if !ok || b.Op.String() != "&" {
+			return false
+		}
+		m, ok := b.Y.(*ssa.BinOp)
+		if !ok || m.Op.String() != "-" {
+			return false
+		}
+		sh, ok := m.X.(*ssa.BinOp)
+		one, isOne := constInt(m.Y)
+		if !ok || sh.Op.String() != "<<" || !isOne || one != 1 {
+			return false
+		}
+		if k, isC := constInt(sh.X); !isC || k != 1 || sh.Y != ssa.Value(fn.Params[1]) {
+			return false
+		}
+	}
+	for _, ret := range returnsOf(rb) {
+		cv, ok := origin(ret.Results[0]).(*ssa.Convert)
+		if !ok {
+			return false
+		}
+		call, ok := cv.X.(*ssa.Call)
+		if !ok || callName(&call.Call) != "lzhuf.bitReader.ReadBits64" || call.Call.Args[1] != ssa.Value(rb.Params[1]) {
+			return false
+		}
+	}
+	c.bitsMasked = 1
+	return true
 }
